@@ -141,8 +141,9 @@ Section ModelRT.
     - exists [], []. repeat split.
     - simpl in Hfs. apply andb_prop in Hfs. destruct Hfs as [Hf Hr].
       destruct IH as (fns & qs & H1 & H2 & H3 & H4); [exact Hr | intros f0 Hf0; apply Hdep; right; exact Hf0 |].
-      destruct (function_roundtrip_fuel f dev fvi irv N (S (S N)) Hf (Hdep f (or_introl eq_refl))
-                  (le_S _ _ (le_n _)) irv_dev eq_refl) as (fn & Hd & q & Hs & Hn).
+      destruct (function_roundtrip_fuel f dev fvi (Some irv) N (S (S N)) Hf (Hdep f (or_introl eq_refl))
+                  (le_S _ _ (le_n _)) irv_dev) as (fn & Hd & q & Hs & Hn).
+      change (ser_function_gen (S (S N)) fvi (Some irv) fn) with (ser_function (S (S N)) irv fn) in Hs.
       exists (fn :: fns), (q :: qs).
       rewrite mapM_cons, Hd. cbn [res_bind]. rewrite H1. cbn [res_bind]. split; [reflexivity|].
       split; [simpl; rewrite (deser_function_key _ _ _ Hd), H2; reflexivity|].
